@@ -67,11 +67,90 @@ pub fn dump_tables(out_path: &str) {
         s.push_str("]}");
         s.push_str(if i + 1 < t.len() { ",\n" } else { "\n" });
     }
-    s.push_str(" ]\n}\n");
+    s.push_str(" ],\n");
+    // Appended for C10 (event assembly): calibration values as seen through the hooks.
+    s.push_str(&calibration_json());
+    s.push_str("}\n");
     if let Some(dir) = std::path::Path::new(out_path).parent() {
         let _ = std::fs::create_dir_all(dir);
     }
     std::fs::write(out_path, s).expect("write tables dump");
+}
+
+/// Run numbers at which the calibration lookups are dumped: both sides of every threshold that
+/// appears in a `match run_number` of the calibration sources (translator/calib.py checks that
+/// every arm of `Generated/CalArms.lean` has a representative here) and the simulation number.
+pub const CALIBRATION_DUMP_RUNS: [u32; 25] = [
+    0, 2723, 2724, 2940, 2941, 4417, 4418, 6999, 7000, 7025, 7026, 9276, 9277, 10417, 10418, 11083,
+    11084, 11185, 11186, 11191, 11192, 20000, 1 << 31, u32::MAX - 1, u32::MAX,
+];
+
+/// `"calibration": {…}` section of the dump (C10): for each of the six lookups and each run of
+/// `CALIBRATION_DUMP_RUNS` the value for every wire 0..256 / every pad (index `column * 576 + row`)
+/// as returned by `alpha_g_physics::verif::*` (`null`: the lookup is an error). Identical tables
+/// are stored once (`tables`) and referenced by index (`by_run`; `null`: every element is an
+/// error, i.e. no map for that run). Baselines are `i16` numbers, gains f64 bit patterns.
+fn calibration_json() -> String {
+    use alpha_g_detector::alpha16::aw_map::TpcWirePosition;
+    use alpha_g_detector::padwing::map::{TpcPadColumn, TpcPadPosition, TpcPadRow};
+    use alpha_g_physics::verif as v;
+    let wires: Vec<TpcWirePosition> = (0..256usize).map(|w| TpcWirePosition::try_from(w).unwrap()).collect();
+    let pads: Vec<TpcPadPosition> = (0..32usize)
+        .flat_map(|c| {
+            (0..576usize).map(move |r| TpcPadPosition {
+                column: TpcPadColumn::try_from(c).unwrap(),
+                row: TpcPadRow::try_from(r).unwrap(),
+            })
+        })
+        .collect();
+    let opt = |x: Option<String>| x.unwrap_or_else(|| "null".to_string());
+    let section = |name: &str, per_run: &dyn Fn(u32) -> Vec<String>| -> String {
+        let mut tables: Vec<Vec<String>> = Vec::new();
+        let mut by_run = Vec::new();
+        for &run in CALIBRATION_DUMP_RUNS.iter() {
+            let t = per_run(run);
+            if t.iter().all(|x| x == "null") {
+                by_run.push(format!("\"{run}\": null"));
+                continue;
+            }
+            let idx = match tables.iter().position(|u| *u == t) {
+                Some(i) => i,
+                None => {
+                    tables.push(t);
+                    tables.len() - 1
+                }
+            };
+            by_run.push(format!("\"{run}\": {idx}"));
+        }
+        let ts: Vec<String> = tables.iter().map(|t| format!("   [{}]", t.join(","))).collect();
+        format!("  \"{name}\": {{\"by_run\": {{{}}}, \"tables\": [\n{}\n  ]}}", by_run.join(", "), ts.join(",\n"))
+    };
+    let delays = |f: &dyn Fn(u32) -> Option<usize>| -> String {
+        let xs: Vec<String> =
+            CALIBRATION_DUMP_RUNS.iter().map(|&r| format!("\"{r}\": {}", opt(f(r).map(|d| d.to_string())))).collect();
+        format!("{{{}}}", xs.join(", "))
+    };
+    let mut s = String::with_capacity(4 << 20);
+    s.push_str(" \"calibration\": {\n");
+    s.push_str("  \"source\": \"alpha_g_physics::verif::{wire,pad}_{baseline,gain,delay} (lazy statics in memory)\",\n");
+    s.push_str("  \"format\": \"baseline: i16; gain: f64 bit pattern, 16 hex digits; wires by index 0..256; pads by column*576+row; null = lookup error\",\n");
+    let runs: Vec<String> = CALIBRATION_DUMP_RUNS.iter().map(|r| r.to_string()).collect();
+    s.push_str(&format!("  \"runs\": [{}],\n", runs.join(", ")));
+    s.push_str(&format!("  \"wire_delay\": {},\n", delays(&|r| v::wire_delay(r))));
+    s.push_str(&format!("  \"pad_delay\": {},\n", delays(&|r| v::pad_delay(r))));
+    s.push_str(&section("wire_baseline", &|run| wires.iter().map(|&w| opt(v::wire_baseline(run, w).map(|b| b.to_string()))).collect()));
+    s.push_str(",\n");
+    s.push_str(&section("wire_gain", &|run| {
+        wires.iter().map(|&w| opt(v::wire_gain(run, w).map(|g| format!("\"{:016x}\"", g.to_bits())))).collect()
+    }));
+    s.push_str(",\n");
+    s.push_str(&section("pad_baseline", &|run| pads.iter().map(|&p| opt(v::pad_baseline(run, p).map(|b| b.to_string()))).collect()));
+    s.push_str(",\n");
+    s.push_str(&section("pad_gain", &|run| {
+        pads.iter().map(|&p| opt(v::pad_gain(run, p).map(|g| format!("\"{:016x}\"", g.to_bits())))).collect()
+    }));
+    s.push_str("\n }\n");
+    s
 }
 
 fn fbits(x: f64) -> String {
